@@ -57,6 +57,13 @@ def expected_views(views, pairs, html):
         for old, new in pairs:
             o, n = (ESC(old), ESC(norm_lines(new))) if html else (old, norm_lines(new))
             s = s.replace(o, n)
+        if html:
+            # a run whose whole text is replaced away emits no string at all: its (now empty) formatting tags vanish
+            import re as _re
+            while True:
+                s2 = _re.sub(r'<(b|i|u|s|sup|sub)></\1>|<span style="[^"]*"></span>', '', s)
+                if s2 == s: break
+                s = s2
         return s
     out = {}
     for k, v in views.items():
